@@ -166,7 +166,7 @@ func init() {
 		ID: "C20",
 		Explanation: "Decides structural necessary conditions of concurrency safety of contexts, plugins and the stdio service (not absence of all races or liveness): R1 guarded-by: every read/write of the listed shared fields (build-context state, service state, watcher and serve-handler state, caches) happens with the owning mutex in the must-hold lock set (intraprocedural dataflow with defer handling and one level of call-site binding), or is a reviewed entry; R2 every Lock is released on all exits (or deferred), and no blocking operation (WaitGroup.Wait, plugin/rebuild call, channel op) runs while a context/service mutex is held; R3 Rebuild/Cancel/Dispose join semantics (Add and activeBuild publication in one critical section, activeBuild cleared under the lock before Done, Cancel/Dispose wait for the snapshotted build, didDispose tested under the lock by every public method); R4 each stdio request gets exactly one response carrying its own id on every path, and every goroutine of the handler is accounted in the keep-alive wait group; R5 on-start callbacks complete before anything that can reach resolve/load callbacks, and on-end callbacks run after the output-writing wait and on every path. NOT covered: data races on fields outside the table, liveness under arbitrary plugin behaviour, the TypeScript side of the protocol.",
 		Run: func(p *Prog, tier string) []*RuleResult {
-			return []*RuleResult{c20GuardedBy(p), c20LockBalance(p), c20JoinSemantics(p), c20CallbackOrdering(p)}
+			return []*RuleResult{c20GuardedBy(p), c20LockBalance(p), c20JoinSemantics(p), c20OneResponse(p), c20CallbackOrdering(p)}
 		},
 	})
 }
@@ -754,5 +754,320 @@ func c20CallbackOrdering(p *Prog) *RuleResult {
 		}
 	}
 	r.Floor(6)
+	return r
+}
+
+// ---------------------------------------------------------------------------------------------
+// R4 one response with the request's own id
+
+type cnt struct{ min, max int }
+
+// pathCounts computes, for every block, the min and max number of events on paths from entry to
+// the block's end (max is capped at 3; a cycle containing an event saturates it).
+func pathCounts(fn *ssa.Function, events func(ssa.Instruction) int) map[*ssa.BasicBlock]cnt {
+	const capN = 3
+	in := map[*ssa.BasicBlock]cnt{}
+	out := map[*ssa.BasicBlock]cnt{}
+	ev := map[*ssa.BasicBlock]int{}
+	for _, b := range fn.Blocks {
+		for _, i := range b.Instrs {
+			ev[b] += events(i)
+		}
+	}
+	if len(fn.Blocks) == 0 {
+		return out
+	}
+	for _, b := range fn.Blocks {
+		in[b] = cnt{1 << 30, -1}
+		out[b] = cnt{1 << 30, -1}
+	}
+	in[fn.Blocks[0]] = cnt{0, 0}
+	changed := true
+	for iter := 0; changed && iter < 200; iter++ {
+		changed = false
+		for _, b := range fn.Blocks {
+			i := in[b]
+			if b != fn.Blocks[0] {
+				i = cnt{1 << 30, -1}
+				for _, p := range b.Preds {
+					o := out[p]
+					if o.max < 0 {
+						continue
+					}
+					if o.min < i.min {
+						i.min = o.min
+					}
+					if o.max > i.max {
+						i.max = o.max
+					}
+				}
+			}
+			if i.max < 0 {
+				continue
+			}
+			o := cnt{i.min + ev[b], i.max + ev[b]}
+			if o.max > capN {
+				o.max = capN
+			}
+			if o.min > capN {
+				o.min = capN
+			}
+			if o != out[b] || i != in[b] {
+				in[b], out[b] = i, o
+				changed = true
+			}
+		}
+	}
+	return out
+}
+
+// c20IDSource reports whether v is "the request's own id" in the given frame.
+type idFrame struct {
+	fn      *ssa.Function
+	isOwnID func(v ssa.Value) bool
+}
+
+func c20OneResponse(p *Prog) *RuleResult {
+	r := NewRule("C20/R4 one-response-own-id", "every request packet gets exactly one response on every path of the dispatcher (goroutines it spawns included), each response is built from the request's own id, and every dispatcher goroutine is registered in the keep-alive wait group")
+	h := p.FindFunc("cmd/esbuild.(*serviceType).handleIncomingPacket")
+	if !r.Anchor("cmd/esbuild.(*serviceType).handleIncomingPacket", h != nil) {
+		return r
+	}
+	sendName := modPath + "/cmd/esbuild.serviceType).sendPacket"
+	isSend := func(in ssa.Instruction) bool {
+		c, ok := in.(*ssa.Call)
+		return ok && strings.HasSuffix(calleeFullName(c), sendName)
+	}
+	// responsibility of a closure: exactly one send on every non-panicking path
+	var closureOK func(fn *ssa.Function, depth int) (bool, string)
+	closureOK = func(fn *ssa.Function, depth int) (bool, string) {
+		if depth > 3 {
+			return false, "nesting too deep"
+		}
+		counts := pathCounts(fn, func(in ssa.Instruction) int {
+			if isSend(in) {
+				return 1
+			}
+			if g, ok := in.(*ssa.Go); ok {
+				if cl := calleeOfGo(g); cl != nil && cl.Parent() == fn {
+					if ok, _ := closureOK(cl, depth+1); ok {
+						return 1
+					}
+				}
+			}
+			return 0
+		})
+		for _, b := range fn.Blocks {
+			if !isReturnBlock(b) || b == fn.Recover {
+				continue
+			}
+			c := counts[b]
+			if c.max < 0 {
+				continue
+			}
+			if c.min != 1 || c.max != 1 {
+				return false, fmt.Sprintf("a path to the return at %s sends between %d and %d responses", p.Pos(b.Instrs[len(b.Instrs)-1].Pos()), c.min, c.max)
+			}
+		}
+		return true, ""
+	}
+	// dispatcher: from the point where the packet is known to be a request
+	counts := pathCounts(h, func(in ssa.Instruction) int {
+		if isSend(in) {
+			return 1
+		}
+		if g, ok := in.(*ssa.Go); ok {
+			if cl := calleeOfGo(g); cl != nil {
+				if ok, _ := closureOK(cl, 0); ok {
+					return 1
+				}
+			}
+		}
+		return 0
+	})
+	nret := 0
+	for _, b := range h.Blocks {
+		if !isReturnBlock(b) || b == h.Recover {
+			continue
+		}
+		isReq, found := fieldCondFact(b, "isRequest")
+		if !found || !isReq {
+			continue // decode failure / response packets: not requests
+		}
+		nret++
+		r.Instances++
+		c := counts[b]
+		key := fmt.Sprintf("handleIncomingPacket return #%d", nret)
+		if c.min == 1 && c.max == 1 {
+			r.OK(key, true, "exactly one response (sendPacket or a goroutine that sends exactly one) on every path to this return")
+		} else {
+			r.Fail("handleIncomingPacket response count", p.Pos(b.Instrs[len(b.Instrs)-1].Pos()), fmt.Sprintf("a request can get between %d and %d responses on a path to this return", c.min, c.max))
+		}
+	}
+	if nret == 0 {
+		r.Fail("handleIncomingPacket returns", p.Pos(h.Pos()), "no return dominated by p.isRequest found")
+	}
+	// each spawned goroutine: report why when it does not send exactly once, and check registration
+	eachInstr(h, func(b *ssa.BasicBlock, in ssa.Instruction) {
+		g, ok := in.(*ssa.Go)
+		if !ok {
+			return
+		}
+		cl := calleeOfGo(g)
+		if cl == nil {
+			return
+		}
+		isReq, found := fieldCondFact(b, "isRequest")
+		r.Instances++
+		key := FuncName(cl)
+		if found && isReq {
+			if ok, why := closureOK(cl, 0); ok {
+				r.OK(key+" sends exactly once", true, "every path of the goroutine sends one response")
+			} else {
+				r.Fail(key+" sends exactly once", p.Pos(cl.Pos()), why)
+			}
+		}
+		// keep-alive registration: Add(1) dominates the go statement in the same block, closure defers Done
+		added := false
+		for _, prev := range b.Instrs[:instrIndex(b, in)] {
+			if c, ok := prev.(*ssa.Call); ok && strings.HasSuffix(calleeFullName(c), "ThreadSafeWaitGroup).Add") {
+				added = true
+			}
+		}
+		deferred := false
+		eachInstr(cl, func(_ *ssa.BasicBlock, in2 ssa.Instruction) {
+			if d, ok := in2.(*ssa.Defer); ok && strings.HasSuffix(calleeFullName(d), "ThreadSafeWaitGroup).Done") {
+				deferred = true
+			}
+		})
+		if added && deferred {
+			r.OK(key+" keep-alive accounting", true, "keepAliveWaitGroup.Add(1) precedes the go statement and the goroutine defers Done()")
+		} else {
+			r.Fail(key+" keep-alive accounting", p.Pos(in.Pos()), "goroutine not bracketed by keepAliveWaitGroup.Add(1) / deferred Done(): the service may exit while it runs")
+		}
+	})
+	// own id: every sendPacket argument in the dispatcher and its closures is built from p.id
+	pID := func(v ssa.Value) bool {
+		o, n, ok := loadedField(v)
+		return ok && n == "id" && o == "cmd/esbuild.packet"
+	}
+	var checkResponse func(v ssa.Value, own func(ssa.Value) bool, depth int) (bool, string)
+	checkResponse = func(v ssa.Value, own func(ssa.Value) bool, depth int) (bool, string) {
+		if depth > 4 {
+			return false, "too deep"
+		}
+		switch x := v.(type) {
+		case *ssa.Phi:
+			for _, e := range x.Edges {
+				if ok, why := checkResponse(e, own, depth+1); !ok {
+					return false, why
+				}
+			}
+			return true, ""
+		case *ssa.Call:
+			n := calleeFullName(x)
+			switch {
+			case strings.HasSuffix(n, "cmd/esbuild.encodePacket"):
+				// argument is a packet value loaded from a local literal
+				if u, ok := x.Call.Args[0].(*ssa.UnOp); ok {
+					if al, ok := u.X.(*ssa.Alloc); ok && al.Referrers() != nil {
+						for _, rf := range *al.Referrers() {
+							if fa, ok := rf.(*ssa.FieldAddr); ok && fieldAddrName(fa) == "id" && fa.Referrers() != nil {
+								for _, rr := range *fa.Referrers() {
+									if st, ok := rr.(*ssa.Store); ok {
+										if own(st.Val) {
+											return true, ""
+										}
+										return false, "packet id is not the request's id"
+									}
+								}
+							}
+						}
+					}
+				}
+				return false, "packet literal without an id"
+			case strings.HasSuffix(n, "cmd/esbuild.encodeErrorPacket"):
+				if own(x.Call.Args[0]) {
+					return true, ""
+				}
+				return false, "error packet id is not the request's id"
+			}
+			// a handler taking the id as an argument: every return of every possible callee must
+			// respond with that parameter
+			var callees []*ssa.Function
+			if sc := x.Call.StaticCallee(); sc != nil {
+				callees = []*ssa.Function{sc}
+			} else if node := p.CallGraph().Nodes[x.Parent()]; node != nil {
+				for _, e := range node.Out {
+					if e.Site == ssa.CallInstruction(x) {
+						callees = append(callees, e.Callee.Func)
+					}
+				}
+			}
+			if len(callees) == 0 {
+				return false, "unresolved responder call"
+			}
+			// which argument carries the id?
+			idArg := -1
+			for i, a := range x.Call.Args {
+				if own(a) {
+					idArg = i
+				}
+			}
+			if idArg < 0 {
+				return false, "responder " + n + " is not given the request's id"
+			}
+			for _, cal := range callees {
+				if cal.Blocks == nil || idArg >= len(cal.Params) {
+					return false, "responder " + FuncName(cal) + " has no body / parameter mismatch"
+				}
+				prm := cal.Params[idArg]
+				ownP := func(v ssa.Value) bool { return v == prm }
+				for _, b := range cal.Blocks {
+					if !isReturnBlock(b) || b == cal.Recover {
+						continue
+					}
+					ret := b.Instrs[len(b.Instrs)-1].(*ssa.Return)
+					if len(ret.Results) != 1 {
+						return false, "responder with unexpected result shape"
+					}
+					if ok, why := checkResponse(returnedValue(ret, 0), ownP, depth+1); !ok {
+						return false, FuncName(cal) + ": " + why
+					}
+				}
+			}
+			return true, ""
+		case *ssa.UnOp:
+			// load of a local variable holding the response
+			if al, ok := x.X.(*ssa.Alloc); ok {
+				if vals, ok := storesToCell(al); ok && len(vals) > 0 {
+					for _, sv := range vals {
+						if ok, why := checkResponse(sv, own, depth+1); !ok {
+							return false, why
+						}
+					}
+					return true, ""
+				}
+			}
+		}
+		return false, fmt.Sprintf("response built by %T", v)
+	}
+	for _, fn := range withClosures(h) {
+		eachInstr(fn, func(b *ssa.BasicBlock, in ssa.Instruction) {
+			if !isSend(in) {
+				return
+			}
+			c := in.(*ssa.Call)
+			r.Instances++
+			key := FuncName(fn) + " response id"
+			arg := c.Call.Args[len(c.Call.Args)-1]
+			if ok, why := checkResponse(arg, pID, 0); ok {
+				r.OK(key, true, "response carries the request's own id")
+			} else {
+				r.Fail(key, p.Pos(c.Pos()), "cannot show that the response carries the request's own id: "+why)
+			}
+		})
+	}
+	r.Floor(20)
 	return r
 }
